@@ -89,6 +89,10 @@ def step (s : Store) (line : String) : Store × String :=
     | none => (s, "bad-op")
   | ["first"] => (s, showNat s.firstIndex)
   | ["last"] => (s, showNat s.lastIndex)
+  | ["bulk", a, b] =>
+    match a.toNat?, b.toNat? with
+    | some a, some b => (s, Driver.joinWith " " ((s.bulkKeys a b).map Driver.hexOrDash))
+    | _, _ => (s, "bad-op")
   | ["delrange", a, b] =>
     match a.toNat?, b.toNat? with
     | some a, some b => (s.deleteRange a b, "ok")
